@@ -247,7 +247,7 @@ ORACLE_PROPS = {
     "crash": ["C%02d" % i for i in range(1, 17)], "harness-thread-panicked": ["C07"],
     "T-flag": ["C12"], "cb-flag": ["C12"],
     "fin-twice": ["C05", "C06"], "fin-without-feature": ["C05"], "finagain-in-callback": ["C12"], "unwrap-wrong": ["C13", "C12"], "unwrap-err-changed": ["C13", "C11"],
-    "action-twice": ["C10"], "action-early": ["C10"], "transient-map-leaked": ["C03", "C10"], "up-none-live": ["C08"], "cyclic-alive-inside": ["C14"], "cyclic-count": ["C14"],
+    "action-twice": ["C10"], "action-early": ["C10"], "action-skipped": ["C10"], "action-late": ["C10"], "transient-map-leaked": ["C03", "C10"], "up-none-live": ["C08"], "cyclic-alive-inside": ["C14"], "cyclic-count": ["C14"],
     "born-unfinalized": ["C05"], "born-finalized-outside": ["C05"],
     "execs": ["C11", "C12", "C15"], "drop-unfinalized": ["C04", "C05"], "fin-reachable": ["C05", "C01", "C07"], "meta-leak": ["C09", "C03"], "not-idle-after-op": ["C07", "C12"], "last-drop-kept": ["C04", "C07"], "thr-policy": ["C15"], "dec-not-buffered": ["C02", "C11", "C07"],
 }
